@@ -79,6 +79,20 @@ RULE = ("compilations of the real Mdd<LEL>, Mdd<FRONTIER>, Pooled in isolation (
         "against DDContract.tla with the oracle of DPModel.tla; non-trivial = inexact (squashed) diagram or exact-mode compilation; distinct = distinct (root, width, lb, type, value)")
 
 
+def mc_dd_part(chk, w, tier):
+    """the specification alone: DD.tla (generative model of _compile) checked by TLC against the contract, the width bound and the arc protocol
+    on every instance x reachable root x type x width x incumbent x cut-set type x tie-break"""
+    thorough = tier == "thorough"
+    tr = os.path.join(w, "mc_insts.ndjson")
+    run_bin("dd", ["--seed", SEED * 1000 + 99, "--instances", 60 if not thorough else 300, "--per-instance", 1, "--family", "allimpacted", "--dd", "lel", "--out", tr])
+    insts = [e["inst"] for e in read_ndjson(tr) if e["ev"] == "reset" and e["inst"]["family"] in ("lifted", "knapsack") and e["inst"]["n"] <= 4 and e["inst"]["b"] <= 4]
+    insts = insts[: (8 if not thorough else 40)]
+    f = os.path.join(w, "mc_dd_insts.json")
+    json.dump(insts, open(f, "w"))
+    r = mc("DD", "MC_DD.cfg", workers=8, env={"INSTS": f}, timeout=3600, require_actions=False)
+    chk.add_mc("MC_DD.cfg", r, constants=f"Widths = {{1,2,3}} Cuts = {{lel, fc}}; {len(insts)} generated instances (n <= 4, <= 4 base states / capacity <= 9), every reachable exact root, 3 types, 4 incumbents")
+
+
 def make(pid, fams):
     def f(tier, replay):
         chk = Check(pid, tier)
@@ -97,6 +111,7 @@ def make(pid, fams):
                 chk.violation(d[0], {"engine": "dd", "args": a, "dd": rp["dd"], "inst": rp["inst"], "events": evs[max(0, d[1] - 4):d[1]]}, f"{d[0]} (replay)", signature=dd_signature(d[0], evs[0]))
             chk.cov.update({"evaluations": 400, "distinct_nontrivial": 2, "samples": [evs[1]]})
             return chk.finish()
+        mc_dd_part(chk, w, tier)
         dd_runs(chk, w, tier, fams)
         evs = read_ndjson(os.path.join(w, f"dd_{fams[0]}_0.ndjson"))
         k = next(i for i, e in enumerate(evs) if e["ev"] == "compiled" and e.get("ok") and not e["exact"])
